@@ -169,6 +169,20 @@ func (f *Frame) resolveName(name string) (Val, bool) {
 	if v, ok := f.lets[name]; ok {
 		return v, true
 	}
+	if f.fc != nil {
+		if pt, ok := f.fc.Binds[name]; ok {
+			// the call has not happened on this path: an arbitrary value
+			for in, p := range f.callOrd {
+				if p == pt {
+					if c, ok := in.(*ssa.Call); ok {
+						v, _ := f.e.freshVal("unbound."+name, c.Type(), nil)
+						f.lets[name] = v
+						return v, true
+					}
+				}
+			}
+		}
+	}
 	// address-taken variables: their current value lives in memory
 	if f.curBlock != nil {
 		for _, b := range f.fn.Blocks {
@@ -755,7 +769,7 @@ func (f *Frame) numberPoints() {
 
 func (f *Frame) calleeKey(c *ssa.CallCommon) string {
 	if c.IsInvoke() {
-		return "(" + types.TypeString(c.Value.Type(), nil) + ")." + c.Method.Name()
+		return "(" + strings.ReplaceAll(types.TypeString(c.Value.Type(), nil), "github.com/gorilla/websocket.", "") + ")." + c.Method.Name()
 	}
 	if fn := c.StaticCallee(); fn != nil {
 		return fnKey(fn)
@@ -1392,6 +1406,8 @@ func (f *Frame) bindLarge(v ssa.Value) {
 		e.pre.asserts.WriteString("(assert (= " + n + " " + c + "))\n")
 		if strings.HasPrefix(sorts[i], "(Array ") {
 			e.alias(n, arrKey(c))
+		} else if sorts[i] == "Int" {
+			e.alias(n, c) // possibly a region id: keep instantiation keys unified
 		}
 		if !changed {
 			val.C = append([]string(nil), val.C...)
